@@ -212,7 +212,7 @@ theorem core_outerTerm (s : St κ β) (n) : core (outerTerm s n) = aOuterTerm (c
 def aErrorAll (c : Core κ) : Core κ := aOuterTerm (aTermAll c)
 
 theorem core_errorAll (s : St κ β) (e) : core (errorAll s e) = aErrorAll (core s) := by
-  unfold errorAll aErrorAll; rw [core_outerTerm, core_termAll]
+  unfold errorAll aErrorAll; rw [core_outerTerm, core_termAll]; rfl
 
 
 /-! ### the well-formedness invariant on the core -/
@@ -706,7 +706,7 @@ theorem trk_outerTerm (s : St κ β) (n) : trk (outerTerm s n) = trk s := by
 
 theorem trk_errorAll (s : St κ β) (e : Err) :
     trk (errorAll s e) = (s.writers.map (·.2)).foldl (fun t g => t.modify g (termT (.error e))) (trk s) := by
-  unfold errorAll; rw [trk_outerTerm, trk_termAll]
+  unfold errorAll; rw [trk_outerTerm, trk_termAll]; rfl
 
 theorem trk_subscribeGroup (s : St κ β) (g : Nat) : trk (subscribeGroup s g) = trk s := by
   unfold subscribeGroup
@@ -1055,7 +1055,7 @@ theorem DE_outerTerm (s : St κ β) (n) : DE s (outerTerm s n) := by
   · refine DE.trans ?_ (DE_rcdDispose _); repeat de_peel
 
 theorem DE_errorAll (s : St κ β) (e : Err) : DE s (errorAll s e) :=
-  (DE_termAll s _).trans (DE_outerTerm _ _)
+  ((DE_of_groups_eq rfl : DE s { s with failed := true }).trans (DE_termAll _ _)).trans (DE_outerTerm _ _)
 
 theorem DE_subscribeGroup (s : St κ β) (g : Nat) : DE s (subscribeGroup s g) := by
   unfold subscribeGroup
@@ -1247,7 +1247,8 @@ theorem inv_termOuter {cfg : Cfg α κ β} {s : St κ β} (hw : WF cfg s) (hes :
   · intro hs; rw [hst] at hs; cases hs
 
 theorem inv_errorAll {cfg : Cfg α κ β} {s : St κ β} (hw : WF cfg s) (hes : ES s) (hdl : DL s) (e : Err) :
-    Inv cfg (errorAll s e) ∧ (errorAll s e).srcStopped = true := inv_termOuter hw hes hdl _ _
+    Inv cfg (errorAll s e) ∧ (errorAll s e).srcStopped = true :=
+  inv_termOuter (s := { s with failed := true }) hw hes hdl _ _
 
 /-! ### expire / durFire -/
 def expT (n : Notif β) (t : TG κ β) : TG κ β := termT n { t with expired := true }
@@ -1559,7 +1560,7 @@ theorem inv_srcNext {cfg : Cfg α κ β} (hrefl : ∀ k, cfg.keyEq k k = true) {
         · exact (inv_errorAll h1.wf h1.es h1.dl _).1
         · exact inv_pushElem (inv_announce hrefl h1 _ k (addGroup_fresh s k)) _ x
 
-theorem inv_srcStop {cfg : Cfg α κ β} {s : St κ β} (h : Inv cfg s) : Inv cfg { s with srcStopped := true } :=
+theorem inv_srcStop {cfg : Cfg α κ β} {s : St κ β} (h : Inv cfg s) : Inv cfg { s with srcStopped := true, srcDone := true } :=
   ⟨wf_aGd h.wf, h.es, h.dl, fun hs => by cases hs⟩
 
 theorem inv_step {cfg : Cfg α κ β} (hrefl : ∀ k, cfg.keyEq k k = true) {s : St κ β} (h : Inv cfg s) (e : Ev α) :
@@ -1978,7 +1979,7 @@ theorem tev_step (cfg : Cfg α κ β) (s : St κ β) (e : Ev α) : TEv (trk s) (
     | error e =>
       simp only [step]; split
       · exact TEv.refl _
-      · rw [trk_closeSrc]; exact tev_errorAll { s with srcStopped := true } e
+      · rw [trk_closeSrc]; exact tev_errorAll { s with srcStopped := true, srcDone := true } e
     | completed =>
       simp only [step]; split
       · exact TEv.refl _
@@ -2203,7 +2204,7 @@ theorem OutExt_outerTerm (s : St κ β) (n) : OutExt s (outerTerm s n) := by
     refine OutExt.trans ?_ (OutExt_emit _ _); exact OutExt_of_eq rfl
 
 theorem OutExt_errorAll (s : St κ β) (e : Err) : OutExt s (errorAll s e) :=
-  (OutExt_termAll s _).trans (OutExt_outerTerm _ _)
+  ((OutExt_of_eq rfl : OutExt s { s with failed := true }).trans (OutExt_termAll _ _)).trans (OutExt_outerTerm _ _)
 
 theorem OutExt_subscribeGroup (s : St κ β) (g : Nat) : OutExt s (subscribeGroup s g) := by
   unfold subscribeGroup; split
@@ -2336,8 +2337,8 @@ theorem termAll_outStopped (s : St κ β) (n : Notif β) : (termAll s n).outStop
   simp only [core_outStopped] at this; rw [this]; exact foldl_aWTerm_out _ _
 
 /-- what the source's terminal does, for a state satisfying the invariant -/
-theorem term_common (cfg : Cfg α κ β) (s : St κ β) (hi : Inv cfg s) (n : Notif β) (n'' : Notif (Nat × κ)) :
-    let s' := closeSrc (outerTerm (termAll { s with srcStopped := true } n) n'')
+theorem term_common (cfg : Cfg α κ β) (s : St κ β) (hi : Inv cfg s) (n : Notif β) (n'' : Notif (Nat × κ)) (d f : Bool) :
+    let s' := closeSrc (outerTerm (termAll { s with srcStopped := true, srcDone := d, failed := f } n) n'')
     trk s' = (trk s).map (termT n) ∧
     (s.outStopped = false → ∃ pre post, s'.out = pre ++ Eff.outer n'' :: post ∧ ∀ e ∈ post, Eff.isUnsub e = true) := by
   intro s'
@@ -2371,14 +2372,14 @@ theorem term_common (cfg : Cfg α κ β) (s : St κ β) (hi : Inv cfg s) (n : No
           have hst : (tg r).stopped = true := hi.es (tg r) (List.mem_map.mpr ⟨r, mem_of_getElem? hg, rfl⟩) hexp
           simp [termT, hst]
   · intro ho
-    have hto : (termAll { s with srcStopped := true } n).outStopped = false := by rw [termAll_outStopped]; exact ho
-    obtain ⟨l1, e1, u1⟩ := OutU_rcdDispose (emit { termAll { s with srcStopped := true } n with outStopped := true } (.outer n''))
-    obtain ⟨l2, e2, u2⟩ := OutU_closeSrc (outerTerm (termAll { s with srcStopped := true } n) n'')
-    refine ⟨(termAll { s with srcStopped := true } n).out, l1 ++ l2, ?_, ?_⟩
+    have hto : (termAll { s with srcStopped := true, srcDone := d, failed := f } n).outStopped = false := by rw [termAll_outStopped]; exact ho
+    obtain ⟨l1, e1, u1⟩ := OutU_rcdDispose (emit { termAll { s with srcStopped := true, srcDone := d, failed := f } n with outStopped := true } (.outer n''))
+    obtain ⟨l2, e2, u2⟩ := OutU_closeSrc (outerTerm (termAll { s with srcStopped := true, srcDone := d, failed := f } n) n'')
+    refine ⟨(termAll { s with srcStopped := true, srcDone := d, failed := f } n).out, l1 ++ l2, ?_, ?_⟩
     · show (closeSrc _).out = _
       rw [e2]
-      have : (outerTerm (termAll { s with srcStopped := true } n) n'').out =
-          (termAll { s with srcStopped := true } n).out ++ [Eff.outer n''] ++ l1 := by
+      have : (outerTerm (termAll { s with srcStopped := true, srcDone := d, failed := f } n) n'').out =
+          (termAll { s with srcStopped := true, srcDone := d, failed := f } n).out ++ [Eff.outer n''] ++ l1 := by
         unfold outerTerm; rw [if_neg (by simp [hto])]; rw [e1]; rfl
       rw [this]; simp
     · intro e he
@@ -2485,7 +2486,7 @@ theorem writerTermWith_eq (errAll : St κ β → Err → St κ β) (s : St κ β
   | none => rfl
   | some r => by_cases hs : r.stopped <;> simp [hnod g, hs]
 
-theorem errorAllD_eq (fuel : Nat) (s : St κ β) (e : Err) : errorAllD cfg fuel s e = errorAll s e := by
+theorem errorAllD_eq (fuel : Nat) (s : St κ β) (e : Err) : errorAllD cfg fuel { s with failed := true } e = errorAll s e := by
   cases fuel with
   | zero => rfl
   | succ f =>
@@ -2794,4 +2795,134 @@ theorem derived_duration_expires_with_element (cfg : Cfg α κ β) (s : St κ β
           · exact u1 e h
           · exact u2 e h
         · exact u3 e h
+end WinGrp
+
+/-! ## re-entrant feedback (`stepN`) -/
+namespace WinGrp
+variable {α κ β : Type}
+
+/-! ### re-entrant feedback (`stepN`) -/
+theorem announceN_eq {cfg : Cfg α κ β} (hn : ∀ g, cfg.nest g = []) (s : St κ β) (g : Nat) (k : κ) :
+    announceN cfg s g k = announceD cfg s g k := by
+  unfold announceN announceD
+  simp [hn g]
+
+theorem srcNextN_eq {cfg : Cfg α κ β} (hn : ∀ g, cfg.nest g = []) (s : St κ β) (x : α) : srcNextN cfg s x = srcNextD cfg s x := by
+  unfold srcNextN srcNextD
+  simp [announceN_eq hn]
+
+theorem stepN_eq_stepD {cfg : Cfg α κ β} (hn : ∀ g, cfg.nest g = []) (s : St κ β) (e : Ev α) : stepN cfg s e = stepD cfg s e := by
+  cases e with
+  | src n => cases n <;> simp [stepN, stepD, srcNextN_eq hn]
+  | dur g n => rfl
+  | disposeOuter => rfl
+  | subGroup g => rfl
+  | disposeGroup g => rfl
+
+theorem runN_eq_runD {cfg : Cfg α κ β} (hn : ∀ g, cfg.nest g = []) (s : St κ β) (evs : List (Ev α)) : runN cfg s evs = runD cfg s evs := by
+  induction evs generalizing s with
+  | nil => rfl
+  | cons e es ih => simp [runN, runD, stepN_eq_stepD hn, ih]
+
+theorem announced1_more (cfg : Cfg α κ β) (s : St κ β) (k : κ) :
+    (announced1 cfg s k).srcStopped = s.srcStopped ∧ (announced1 cfg s k).groups.length = s.groups.length + 1 ∧
+    (announced1 cfg s k).outStopped = s.outStopped := by
+  have hg1 : (emit (modGrp (addGroup s k) s.groups.length fun r => { r with announced := true })
+      (.outer (.next (s.groups.length, k)))).groups[s.groups.length]? = some { key := k, announced := true } := by
+    have := modGrp_get (addGroup s k) s.groups.length (fun r => { r with announced := true })
+    rw [addGroup_get] at this
+    exact this
+  by_cases hi : cfg.imm s.groups.length = true
+  · have e := subscribeGroup_open _ _ _ hg1 rfl rfl rfl
+    unfold announced1
+    simp only [hi, if_true]
+    rw [e]
+    exact ⟨rfl, by simp [addGroup], rfl⟩
+  · unfold announced1
+    simp only [hi, Bool.false_eq_true, if_false]
+    exact ⟨rfl, by simp [addGroup], rfl⟩
+
+theorem writerNext_facts (s : St κ β) (g : Nat) (v : β) (r : Grp κ β) (hg : s.groups[g]? = some r) (hst : r.stopped = false) :
+    (writerNext s g v).out = s.out ++ (.tap g (.next v) :: (if r.sub = .active then [.grp g (.next v)] else [])) ∧
+    (writerNext s g v).groups[g]? =
+      some ({ r with wlog := r.wlog ++ [.next v], seen := (if r.sub = .active then r.seen ++ [.next v] else r.seen) } : Grp κ β) ∧
+    (writerNext s g v).rcdDisposed = s.rcdDisposed ∧ (writerNext s g v).groups.length = s.groups.length := by
+  unfold writerNext
+  by_cases ha : r.sub = .active <;> simp [hg, hst, ha, modGrp, emit]
+
+theorem find?_append_last {A} (p : A → Bool) (l : List A) (a : A) (h : l.find? p = none) (ha : p a = true) :
+    (l ++ [a]).find? p = some a := by
+  rw [List.find?_append, h]; simp [ha]
+
+theorem nested_same_key_element_routed (cfg : Cfg α κ β) (hrefl : ∀ k, cfg.keyEq k k = true) (s : St κ β)
+    (x y : α) (k : κ) (v vy : β)
+    (hs : s.srcStopped = false) (ho : s.outStopped = false) (hd : s.rcdDisposed = false)
+    (hk : cfg.keyMapper x = .ok k) (hf : s.writers.find? (fun p => cfg.keyEq p.1 k) = none)
+    (hsm : cfg.subjMapper s.groups.length = .ok ()) (hdm : cfg.durMapper s.groups.length = .ok ())
+    (hv : cfg.elemMapper x = .ok v)
+    (hnest : cfg.nest s.groups.length = [y]) (hky : cfg.keyMapper y = .ok k) (hvy : cfg.elemMapper y = .ok vy)
+    (hplain : cfg.dgrp s.groups.length = none ∧ cfg.dsync s.groups.length = none) :
+    (stepN cfg s (.src (.next x))).out =
+      s.out ++ (.outer (.next (s.groups.length, k)) :: .tap s.groups.length (.next vy) ::
+        (if cfg.imm s.groups.length then [.grp s.groups.length (.next vy)] else []) ++
+        .subDur s.groups.length :: .tap s.groups.length (.next v) ::
+        (if cfg.imm s.groups.length then [.grp s.groups.length (.next v)] else [])) ∧
+    (stepN cfg s (.src (.next x))).groups.length = s.groups.length + 1 ∧
+    ((stepN cfg s (.src (.next x))).groups[s.groups.length]?).map (·.wlog) = some [.next vy, .next v] := by
+  obtain ⟨hout2, hd2, hw2, hg2⟩ := announced1_facts cfg s k hd
+  obtain ⟨hs2, hl2, ho2⟩ := announced1_more cfg s k
+  -- the nested element: key found (the writer is already registered), pushed to group g
+  have hfind : (announced1 cfg s k).writers.find? (fun p => cfg.keyEq p.1 k) = some (k, s.groups.length) := by
+    rw [hw2]; exact find?_append_last _ _ _ hf (hrefl k)
+  have hnested : srcNextD cfg (announced1 cfg s k) y = writerNext (announced1 cfg s k) s.groups.length vy := by
+    unfold srcNextD
+    simp only [hky, hfind]
+    unfold pushElemD
+    simp only [hvy]
+    unfold writerNextD
+    simp [hg2]
+  obtain ⟨o3, g3, d3, l3⟩ := writerNext_facts (announced1 cfg s k) s.groups.length vy _ hg2 rfl
+  rw [← hnested] at o3 g3 d3 l3
+  -- the step, unfolded down to the feedback
+  have hstep : stepN cfg s (.src (.next x)) =
+      writerNextD cfg (emit (modGrp (srcNextD cfg (announced1 cfg s k) y) s.groups.length fun r => { r with dur := .live })
+        (.subDur s.groups.length)) s.groups.length v := by
+    show (if s.srcStopped = true then s else srcNextN cfg s x) = _
+    rw [if_neg (by simp [hs])]
+    unfold srcNextN
+    simp only [hk, hf, hsm, hdm]
+    unfold pushElemD
+    simp only [hv]
+    congr 1
+    have ho' : (addGroup s k).outStopped = false := ho
+    show announceN cfg (addGroup s k) s.groups.length k = _
+    unfold announceN
+    simp only [ho', Bool.false_eq_true, if_false, hnest, List.foldl, hplain.1, hplain.2]
+    have e1 : (if cfg.imm s.groups.length = true then
+        subscribeGroup (emit (modGrp (addGroup s k) s.groups.length fun r => { r with announced := true })
+          (Eff.outer (Notif.next (s.groups.length, k)))) s.groups.length
+        else emit (modGrp (addGroup s k) s.groups.length fun r => { r with announced := true })
+          (Eff.outer (Notif.next (s.groups.length, k)))) = announced1 cfg s k := rfl
+    rw [e1]
+    simp [hs2, hs, d3, hd2]
+  rw [hstep]
+  generalize srcNextD cfg (announced1 cfg s k) y = s3 at o3 g3 d3 l3
+  -- the duration is subscribed, then the creating element is pushed
+  have hg4 := modGrp_get s3 s.groups.length (fun r => { r with dur := DurSt.live })
+  rw [g3] at hg4
+  simp only [Option.map_some] at hg4
+  have hwd : writerNextD cfg (emit (modGrp s3 s.groups.length fun r => { r with dur := DurSt.live }) (Eff.subDur s.groups.length))
+      s.groups.length v = writerNext (emit (modGrp s3 s.groups.length fun r => { r with dur := DurSt.live })
+        (Eff.subDur s.groups.length)) s.groups.length v := by
+    unfold writerNextD writerNext
+    rw [show (emit (modGrp s3 s.groups.length fun r => { r with dur := DurSt.live }) (Eff.subDur s.groups.length)).groups[s.groups.length]? = _ from hg4]
+    simp [hplain.1]
+  rw [hwd]
+  obtain ⟨o5, g5, _, l5⟩ := writerNext_facts (emit (modGrp s3 s.groups.length fun r => { r with dur := DurSt.live })
+    (Eff.subDur s.groups.length)) s.groups.length v _ hg4 rfl
+  refine ⟨?_, ?_, ?_⟩
+  · rw [o5]; simp only [emit_out, modGrp_out, o3, hout2]
+    by_cases hi : cfg.imm s.groups.length = true <;> simp [hi]
+  · rw [l5]; simp [l3, hl2]
+  · rw [g5]; simp
 end WinGrp
